@@ -342,6 +342,14 @@ pub fn run() -> Report {
             if c.hash_seed != 1 {
                 spec.env.push(("VERIF_DETRAND".into(), c.hash_seed.to_string()));
             }
+            // the reader's calendar clock is no input: one case in five runs with a clock that is behind the chain's timestamps
+            // (a board without a battery, a restored snapshot, an offline analysis machine) - before every block but genesis,
+            // a little less than two hours before the tip (the node rule for blocks from the future splits the chain there), or at the epoch
+            match _i % 10 {
+                3 => spec.env.push(("VERIF_REALTIME".into(), "1300000000".into())),
+                8 => spec.env.push(("VERIF_REALTIME".into(), if _i % 20 == 8 { "0".into() } else { "1599995000".to_string() })),
+                _ => {}
+            }
             if let Err(m) = wk.materialise(&world) {
                 return acc.machinery(m);
             }
@@ -440,6 +448,7 @@ pub fn run() -> Report {
     }
     long_index_case(&mut rep, &root, if thorough { 1_000_000 } else { 150_000 }, "csvdump");
     high_heights(&mut rep, &root);
+    moving_index(&mut rep, &root);
     let _ = std::fs::remove_dir_all(&root);
     rep
 }
@@ -581,4 +590,113 @@ fn high_heights(rep: &mut Report, root: &std::path::Path) {
         }
     }
     wk.cleanup();
+}
+
+
+/// The node keeps running: while the parser is in the middle of its blocks another process replaces the block index and adds
+/// blk files (the chain grows; the tip is reorganised away by a longer branch; a deeper reorganisation). The change is applied
+/// by the shim immediately before EVERY read of a blk file in turn. Whatever snapshot(s) of the index an implementation uses,
+/// the delivered sequence must be a chain - each delivered block's prev-hash is the hash of the block delivered before it,
+/// heights ascending by one - and every delivered block must belong to the active chain of the index as it was at the start
+/// or as it is at the end; a block that is in neither (never active) must not appear. Runs that fail are not judged.
+fn moving_index(rep: &mut Report, root: &std::path::Path) {
+    let btc = coin("bitcoin");
+    let chain = dependent_chain(btc, 0, 4);
+    let mut a = World::new(btc);
+    for (i, b) in chain.blocks.iter().enumerate() {
+        a.add_block(i as u64, i as u64, b);
+    }
+    let mk = |h: u64, tag: u32, parent: [u8; 32]| Block::build(1, parent, 1_600_100_000 + tag, 0x1d00ffff, tag, vec![coinbase(h, 0xD000 + tag, vec![pay(224, 50 * COIN_VALUE)]), crate::c01::TxP::base().build(190 + tag as u8)]);
+    let mut variants: Vec<(&str, World, Vec<[u8; 32]>)> = Vec::new();
+    for v in 0..3usize {
+        let mut w = a.clone();
+        let (fork, n_new, label) = [(4usize, 2usize, "chain-grows"), (3, 2, "tip-reorganised-by-a-longer-branch"), (2, 4, "deeper-reorganisation")][v];
+        let mut parent = chain.blocks[fork - 1].hash();
+        let mut active_b: Vec<[u8; 32]> = chain.blocks[..fork].iter().map(|b| b.hash()).collect();
+        for k in 0..n_new {
+            let h = (fork + k) as u64;
+            let b = mk(h, (v * 10 + k) as u32, parent);
+            w.add_block_status(4 + k as u64, h, &b, ACTIVE);
+            parent = b.hash();
+            active_b.push(b.hash());
+        }
+        variants.push((label, w, active_b));
+    }
+    let active_a: Vec<[u8; 32]> = chain.blocks.iter().map(|b| b.hash()).collect();
+    // number the blk reads of the undisturbed run
+    let wk0 = Worker::new(root, 980);
+    if let Err(m) = wk0.materialise(&a) {
+        return rep.machinery(m);
+    }
+    let mut s0 = RunSpec::new("bitcoin", "csvdump");
+    s0.env.push(("FAULTFS_RPREFIX".into(), format!("{}/blk", wk0.data().display())));
+    s0.env.push(("FAULTFS_LOG".into(), wk0.dir.join("shim.log").display().to_string()));
+    let r0 = wk0.run(&s0);
+    let n_reads = std::fs::read_to_string(wk0.dir.join("shim.log")).unwrap_or_default().lines().filter(|l| l.starts_with("R ") && l.contains(" read ")).count();
+    if !r0.ok() || n_reads == 0 {
+        return rep.machinery(format!("moving index: numbering run failed (exit {:?}, {} reads)", r0.code, n_reads));
+    }
+    drop(wk0);
+    let mut cases = Vec::new();
+    for v in 0..variants.len() {
+        for k in 0..n_reads {
+            for cb in ["csvdump"] {
+                cases.push((v, k, cb));
+            }
+        }
+    }
+    let parts = par_fold(
+        &cases,
+        || Report::new("C04", "e1"),
+        |w, _i, (v, k, cb), acc| {
+            let wk = Worker::new(root, 981 + w);
+            let (label, wb, active_b) = &variants[*v];
+            if let Err(m) = wk.materialise(&a) {
+                return acc.machinery(m);
+            }
+            let later = wk.dir.join("data-later");
+            let _ = std::fs::remove_dir_all(&later);
+            if let Err(e) = wb.materialise(&later) {
+                return acc.machinery(format!("materialise: {}", e));
+            }
+            let mut spec = RunSpec::new("bitcoin", cb);
+            spec.env.push(("FAULTFS_RPREFIX".into(), format!("{}/blk", wk.data().display())));
+            spec.env.push(("FAULTFS_RHOOK".into(), format!("{}:rm -rf '{}/index' && cp -r '{}/.' '{}/'", k, wk.data().display(), later.display(), wk.data().display())));
+            let r = wk.run(&spec);
+            acc.states += 1;
+            acc.transitions += 1;
+            acc.nontrivial.insert(h8(format!("moving{}{}{}", v, k, cb).as_bytes()));
+            acc.count(&format!("index-replaced-while-running:{}", label), 1);
+            if !wk.data().join("blk00004.dat").exists() {
+                return acc.machinery(format!("moving index: the hook before read #{} did not run", k));
+            }
+            if r.code != Some(0) {
+                acc.count("index-replaced-while-running:run-failed(not judged)", 1);
+                return;
+            }
+            let text = match r.files.iter().find(|(n, _)| n.starts_with("blocks-")) {
+                Some((_, c)) => String::from_utf8_lossy(c).into_owned(),
+                None => return,
+            };
+            let rows: Vec<Vec<&str>> = text.lines().map(|l| l.split(';').collect()).filter(|c: &Vec<&str>| c.len() >= 5).collect();
+            let known: std::collections::BTreeSet<String> = active_a.iter().chain(active_b.iter()).map(|h| refmodel::ser::hash_hex(h)).collect();
+            let mut bad: Option<(String, String)> = None;
+            for (i, row) in rows.iter().enumerate() {
+                if !known.contains(row[0]) {
+                    bad = Some(("delivered-block-in-neither-active-chain".into(), format!("row {}: block {} at height {}", i, row[0], row[1])));
+                    break;
+                }
+                if i > 0 && (row[4] != rows[i - 1][0] || row[1].parse::<u64>().ok() != rows[i - 1][1].parse::<u64>().ok().map(|h| h + 1)) {
+                    bad = Some(("delivered-sequence-is-not-a-chain".into(), format!("row {}: block {} (height {}) has prev-hash {}, the block delivered before it is {} (height {})", i, row[0], row[1], row[4], rows[i - 1][0], rows[i - 1][1])));
+                    break;
+                }
+            }
+            if let Some((sig, d)) = bad {
+                acc.disagree(&format!("moving-index[{}]:{}", label, sig), format!("index replaced immediately before blk read #{}: {}", k, d), json!({"kind": "e1-described", "variant": label, "hook_before_blk_read": k, "callback": cb}));
+            }
+        },
+    );
+    for p in parts {
+        rep.merge(p);
+    }
 }
